@@ -88,6 +88,13 @@ class IORunner:
         self.dbdir = os.path.join(self.dir, "d")
         os.mkdir(self.dbdir)
         self.path = os.path.join(self.dbdir, "db.csv")
+        if case.get("symlink"):
+            # the path handed to TinyFlux is a symbolic link to a file in another directory
+            real_dir = os.path.join(self.dir, "real")
+            os.mkdir(real_dir)
+            real = os.path.join(real_dir, "real.csv")
+            open(real, "w").close()
+            os.symlink(real, self.path)
         self.undo = IO.install(S, self.path)
         self.saved_tmp = tempfile.tempdir
         tempfile.tempdir = self.tmpdir
@@ -175,6 +182,8 @@ def gen_case(seed, prop, idx):
         g.hard = True
     elif prop == "C15":
         case["mode"] = ["r+", "r+", "r", "a", "w+"][idx % 5]
+    if prop in ("C12", "C13", "C04") and idx % 5 == 3:
+        case["symlink"] = True
     import fam_hist
 
     w = {"C04": dict(ins=34, read=14, get=6, rm=16, upd=16, drop=3, rmall=3, reidx=3, reopen=5),
